@@ -209,6 +209,13 @@ func (f *baseFlow) BuildCertificate(ctx context.Context,
 		return nil, fmt.Errorf("error getting imported bridge exits: %w", err)
 	}
 
+	// every claim must be provable against the L1 info root the certificate names: the L1 info tree
+	// syncer can have advanced since that root was chosen, so the leaf of a claim's GER can be newer
+	// than the root (the proof obtained for it would then not verify)
+	if err := checkImportedBridgeExitsWithinL1InfoRoot(importedBridgeExits, certParams.L1InfoTreeLeafCount); err != nil {
+		return nil, err
+	}
+
 	height, previousLER, err := f.getNextHeightAndPreviousLER(lastSentCertificate)
 	if err != nil {
 		return nil, fmt.Errorf("error getting next height and previous LER: %w", err)
@@ -236,6 +243,30 @@ func (f *baseFlow) BuildCertificate(ctx context.Context,
 		Metadata:            meta.ToHash(),
 		L1InfoTreeLeafCount: certParams.L1InfoTreeLeafCount,
 	}, nil
+}
+
+// checkImportedBridgeExitsWithinL1InfoRoot checks that the L1 info tree leaf used by each imported bridge exit
+// belongs to the L1 info tree with the given leaf count (0 means that the leaf count is not known)
+func checkImportedBridgeExitsWithinL1InfoRoot(
+	importedBridgeExits []*agglayertypes.ImportedBridgeExit, l1InfoTreeLeafCount uint32) error {
+	if l1InfoTreeLeafCount == 0 {
+		return nil
+	}
+	for _, ibe := range importedBridgeExits {
+		var l1Leaf *agglayertypes.L1InfoTreeLeaf
+		switch claimData := ibe.ClaimData.(type) {
+		case *agglayertypes.ClaimFromMainnnet:
+			l1Leaf = claimData.L1Leaf
+		case *agglayertypes.ClaimFromRollup:
+			l1Leaf = claimData.L1Leaf
+		}
+		if l1Leaf != nil && l1Leaf.L1InfoTreeIndex >= l1InfoTreeLeafCount {
+			return fmt.Errorf("claim with global index %s uses L1 info tree index %d, which is not part of "+
+				"the L1 info tree root of the certificate (leaf count: %d)",
+				ibe.GlobalIndex.String(), l1Leaf.L1InfoTreeIndex, l1InfoTreeLeafCount)
+		}
+	}
+	return nil
 }
 
 // getNewLocalExitRoot gets the new local exit root for the certificate
